@@ -43,6 +43,14 @@ def main():
         nchrom = max(it[0] for it in b["items"])
         hcases.append({"kind": "bw", "chroms": [6] * nchrom, "items": b["items"], "hist": b["hist"], "vmap": "int", "scale": 1,
                        "opts": {"ips": 1, "bs": b["bs"], "zooms": [], "zmode": "manual", "compress": k % 2, "inmem": 1, "threads": 1, "rt": "current", "pass": 1, "chan": 100}})
+    # (2b) a tenth of the histories end with N readers obtained by reopen(), used AT THE SAME TIME from N threads (what the
+    #      multi-threaded converters do): a reopened reader must not share its file position with the one it came from
+    for k, hc in enumerate(hcases):
+        if k % 10 == 3:
+            L = 6
+            nchrom = len(hc["chroms"])
+            qs = [[c_, s_, e_] for c_ in range(1, nchrom + 1) for s_ in range(0, L) for e_ in range(s_ + 1, L + 1) if (s_ + e_) % 2 == 0]
+            hc["hist"] = list(hc["hist"]) + [{"op": "par", "c": 0, "s": 0, "e": 0, "n": 4, "rounds": 12, "qs": qs}]
     # (3) the real cache capacity: 6000 single-value blocks, a full scan through the caching reader, then narrow queries
     n = 6000
     items = [[1, 2 * i, 2 * i + 1, 1 + i % 5] for i in range(n)]
